@@ -39,10 +39,13 @@ def universes(quick):
         nested = nested + [{"n": {"x": 2, "y": "v.1"}, "a": 2}]
         collide = collide + [{"x/y": 1, "a": 1.5}]
         jobkey = jobkey + [{"a": "job", "job": 1}]
-    return [Universe("hom", hom, ALL5), Universe("het", het, ["auto", "id", "tree"]),
-            Universe("nested", nested, ["auto", "flat", "const"]),
-            Universe("collide", collide, ["auto", "id"], orders=["asc", "desc"]),
-            Universe("jobkey", jobkey, ["auto"], speckey="job")]
+    us = [Universe("hom", hom, ["auto", "tree", "flat"] if quick else ALL5), Universe("het", het, ["auto", "id", "tree"]),
+          Universe("nested", nested, ["auto", "flat", "const"]),
+          Universe("collide", collide, ["auto", "id"], orders=["asc", "desc"]),
+          Universe("jobkey", jobkey, ["auto"], speckey="job")]
+    for u in us:      # deviations reachable in the universe, in the order in which they are switched off for TLC's counterexamples
+        u.devs = {"collide": ["D1", "D2"], "jobkey": ["D1", "D3"]}.get(u.name, ["D1"])
+    return us
 
 
 def sim_universe():
@@ -102,8 +105,16 @@ def _tlc_universe(args):
     out["graph"] = tlc.run(path, cfg_text=tlc.cfg(consts, invariants=["TypeOK"], postcondition="Export"), workdir=work, workers=workers,
                            dump=dot, coverage=False, allow_violation=False, env={"WANT_OUT": wantf})
     out["dot"], out["wantf"] = dot, wantf
-    out["req_conf"] = tlc.run(path, cfg_text=tlc.cfg(consts, invariants=["Requirements"], alias="Shown"), workdir=work, workers=workers,
-                              coverage=False, allow_violation=True, env={"WANT_OUT": wantf + ".unused"})
+    # the requirement on the conformant model: TLC's shortest counterexample for one deviation after the other
+    out["req_conf"] = []
+    fl = dict(flags)
+    for n, d in enumerate(uni.devs):
+        if not fl["Fixed" + d]:
+            p2, c2 = _write_mc(work, uni, fl, "conf%d" % n)
+            r = tlc.run(p2, cfg_text=tlc.cfg(c2, invariants=["Requirements"], alias="Shown"), workdir=work, workers=workers,
+                        coverage=False, allow_violation=True, env={"WANT_OUT": wantf + ".unused"})
+            out["req_conf"].append((d, dict(fl), r))
+        fl["Fixed" + d] = True
     if ideal_too and not all(flags.values()):
         path2, consts2 = _write_mc(work, uni, {k: True for k in flags}, "ideal")
         out["req_ideal"] = tlc.run(path2, cfg_text=tlc.cfg(consts2, invariants=["TypeOK", "Requirements"]), workdir=work, workers=workers,
@@ -193,15 +204,16 @@ def _run_walk(uname, walk, root, wid, stop_on_problem=True):
     """replay one walk; -> dict(covered edge ids, violations [(sig, what, replay)], drift [...], steps)"""
     g, uni, want = _G[uname]
     sb = Sandbox(os.path.join(root, "%s-%s" % (uname, wid)), uni)
-    out = {"covered": [], "viol": [], "drift": [], "steps": 0, "keys": set()}
+    out = {"covered": [], "viol": [], "drift": [], "steps": 0, "keys": set(), "not_taken": []}
     cur, prev_action = g.init, None
+    every = _G.get("__scratch_every__", 1)
     try:
+        obs = sb.view()
         for n, eid in enumerate(walk):
             e = g.edges[eid]
             if e["src"] != cur:
                 break                                # an earlier nondeterministic step went elsewhere: rest is re-planned
-            pre_l, pre_d, _ = sb.view()
-            pre = (_strip(pre_l), pre_d)
+            pre = (_strip(obs[0]), obs[1])           # the view as observed after the previous step
             res, exc = _step(sb, uni, e["op"], e["j1"], e["j2"], e["a"])
             out["steps"] += 1
             out["keys"].add((uname, e["src"], repr(g.action_key(e))))
@@ -226,11 +238,13 @@ def _run_walk(uname, walk, root, wid, stop_on_problem=True):
                 out["covered"].append(matched["id"])
                 cur, prev_action = matched["dst"], g.action_key(e)
                 continue
-            kind, text = _judge_view(sb, uni, e["a"], g.nodes[e["src"]]["ws"], pre, res, exc, obs, want)
+            kind, text = _judge_view(sb, uni, e["a"], g.nodes[e["src"]]["ws"], pre, res, exc, obs, want, scratch=(eid % every == 0))
             rerun = ":on-rerun" if prev_action == g.action_key(e) else ""
             rp["want"] = [x if not isinstance(x, (set, frozenset)) else sorted(x) for x in _want_for(want, e["a"], g.nodes[e["src"]]["ws"], pre)]
             if matched is not None:
                 out["covered"].append(matched["id"])
+                if matched["id"] != eid:
+                    out["not_taken"].append(eid)      # the implementation chose another outcome of this nondeterministic step
                 if kind is not None:
                     tags = sorted(matched["dev"])
                     if tags:
@@ -258,10 +272,11 @@ def _run_walk(uname, walk, root, wid, stop_on_problem=True):
 def _replay_chunk(item):
     uname, walks, root, base = item
     g = _G[uname][0]
-    res = {"covered": [], "viol": {}, "drift": [], "steps": 0, "keys": set(), "walks": 0}
+    res = {"covered": [], "viol": {}, "drift": [], "steps": 0, "keys": set(), "walks": 0, "not_taken": []}
     for i, w in enumerate(walks):
         o = _run_walk(uname, w, root, "%d-%d" % (base, i))
         res["covered"] += o["covered"]
+        res["not_taken"] += o["not_taken"]
         res["steps"] += o["steps"]
         res["keys"] |= o["keys"]
         res["walks"] += 1
@@ -289,9 +304,10 @@ def _replay_all(ctx, uname, walks, tag):
     root = ctx.mkdtemp("rp-%s-%s" % (uname, tag))
     nchunks = max(1, min(len(walks), WORKERS * 4))
     chunks = [(uname, walks[i::nchunks], root, i) for i in range(nchunks)]
-    covered = set()
+    covered, not_taken = set(), set()
     for r in core.pmap(_replay_chunk, chunks, procs=WORKERS, chunks=1):
         covered |= set(r["covered"])
+        not_taken |= set(r["not_taken"])
         ctx.count(n=r["steps"], traces=r["walks"])
         for k in r["keys"]:
             ctx.count(k, n=0)
@@ -300,7 +316,38 @@ def _replay_all(ctx, uname, walks, tag):
         for d in r["drift"]:
             ctx.spec_drift(d)
     shutil.rmtree(root, ignore_errors=True)
-    return covered
+    return covered, not_taken
+
+
+def _replay_counterexample(ctx, uname, trace):
+    """TLC's counterexample (a behaviour ending in a state where some CreateView violates a requirement) as a walk of the
+    conformant graph, executed on the real code"""
+    g, uni, want = _G[uname]
+    states = [s for _, s in trace]
+    final = states[-1]
+    names = sorted({str(x[0]) for x in final.get("violated", [])})
+    steps = [s["last"] for s in states[1:] if s["last"]["op"] != "idle"]
+    if final["last"]["op"] == "idle":          # violation of a per-argument check: append the witness call
+        wit = sorted(final["violated"], key=repr)[0][1]
+        steps.append({"op": "view", "j1": "", "j2": "", "a": wit})
+    elif "SecondRunNoop" in names:             # violation found right after a successful call: the same call once more
+        steps.append(dict(final["last"]))
+    cur, walk = g.init, []
+    for st in steps:
+        key = (st["op"], st["j1"], st["j2"], st["a"])
+        cands = [i for i in g.out[cur] if g.action_key(g.edges[i]) == key]
+        if not cands:
+            return {"violated": names, "history": [_describe_last(uni, x) for x in steps], "replayed": "not a path of the conformant graph"}
+        walk.append(cands[0])
+        cur = g.edges[cands[0]]["dst"]
+    o = _run_walk(uname, walk, ctx.mkdtemp("cex"), "cex")
+    for sig, what, rp in o["viol"]:
+        ctx.violation(sig, what, rp)
+    return {"violated": names, "history": [_describe(uni, g.edges[i]) for i in walk], "real_execution_shows": sorted({sig for sig, _, _ in o["viol"]})}
+
+
+def _describe_last(uni, st):
+    return _describe(uni, {"op": st["op"], "j1": st["j1"], "j2": st["j2"], "a": st["a"]})
 
 
 # ---------------------------------------------------------------------------------------------------------
@@ -374,12 +421,15 @@ def run(ctx):
     with ThreadPoolExecutor(max_workers=4) as ex:
         results = list(ex.map(_tlc_universe, [(ctx.work, u, flags, tw, True) for u in unis]))
     _G["__quick__"] = ctx.quick
+    _G["__scratch_every__"] = 4 if ctx.quick else 1      # real sibling from-scratch build: every 4th edge (quick) / every edge
     lap("TLC graphs + requirement runs done")
     cex = {}
     for r in results:
         uni = r["uni"]
         ctx.add_tlc("LinkedView %s: complete state graph (conformant model) + target table" % uni.name, r["graph"])
-        ctx.add_tlc("LinkedView %s: Requirements on the conformant model" % uni.name, r["req_conf"])
+        for d, fl, rr in r["req_conf"]:
+            ctx.add_tlc("LinkedView %s: Requirements on the conformant model (%s), expecting a counterexample for %s" % (
+                uni.name, ",".join(k for k, v in sorted(fl.items()) if v) or "no deviation fixed", d), rr)
         if "req_ideal" in r:
             ctx.add_tlc("LinkedView %s: Requirements on the ideal model (all deviations fixed) - holds" % uni.name, r["req_ideal"])
         g = Graph(r["dot"])
@@ -389,12 +439,12 @@ def run(ctx):
         if ops != {"add", "remove", "rekey", "view"}:
             raise core.MachineryError("vacuous model %s: only %s occur" % (uni.name, ops))
         _G[uni.name] = (g, uni, _load_want(uni, r["wantf"]))
-        v = r["req_conf"].violation
-        if v:
-            st = v["trace"][-1][1] if v["trace"] else {}
-            cex[uni.name] = {"violated": sorted(str(x[0]) for x in st.get("violated", [])), "history_length": len([1 for h, s in v["trace"] if s.get("last", {}).get("op") not in ("idle", None)])}
-        elif any(e["dev"] for e in g.edges):
-            raise core.MachineryError("%s: model deviates on some edge but TLC found Requirements satisfied" % uni.name)
+        for d, fl, rr in r["req_conf"]:
+            if not rr.violation:
+                raise core.MachineryError("%s: deviation %s is switched on but TLC finds Requirements satisfied (vacuous)" % (uni.name, d))
+            cex["%s/%s" % (uni.name, d)] = _replay_counterexample(ctx, uni.name, rr.violation["trace"])
+        if not r["req_conf"] and any(e["dev"] for e in g.edges):
+            raise core.MachineryError("%s: model deviates on some edge although every deviation is probed as fixed" % uni.name)
     ctx.cov["tlc_counterexamples_on_conformant_model"] = cex
     # ---- spec -> code: every edge ------------------------------------------------------------------
     graph_stats = {}
@@ -402,19 +452,32 @@ def run(ctx):
         g = _G[uni.name][0]
         todo = set(range(len(g.edges)))
         total = len(todo)
-        for rnd_no in range(3):
-            if not todo:
+        done, banned = set(), set()
+        for rnd_no in range(5):
+            # states the implementation has actually produced so far (a nondeterministic model step may have outcomes the
+            # implementation never chooses; states only reachable through those cannot be entered)
+            reached = {g.init} | {g.edges[i]["dst"] for i in done}
+            plan = {i for i in todo if g.edges[i]["src"] in reached and i not in banned} if rnd_no else set(todo)
+            if not plan:
                 break
-            walks = cover_walks(g, todo, 60 if rnd_no == 0 else 12, random.Random(ctx.seed + rnd_no))
+            walks = cover_walks(g, plan, 60 if rnd_no == 0 else 12, random.Random(ctx.seed + rnd_no), banned=banned, prefer=done)
+            if not walks:
+                break
             if rnd_no == 0:
                 ctx.sample({"universe": uni.name, "state_points": uni.sp_of, "walk": [_describe(uni, g.edges[i]) for i in walks[len(walks) // 2][:8]]})
-            todo -= _replay_all(ctx, uni.name, walks, "r%d" % rnd_no)
-        # what is left must be alternatives of nondeterministic steps that the implementation did not choose
-        unexplained = [i for i in todo if len(g.alternatives(g.edges[i])) < 2]
-        graph_stats[uni.name] = {"nodes": len(g.nodes), "edges": total, "edges_executed": total - len(todo),
-                                 "nondeterministic_alternatives_not_taken_by_the_implementation": len(todo) - len(unexplained),
+            cov, nt = _replay_all(ctx, uni.name, walks, "r%d" % rnd_no)
+            done |= cov
+            banned |= nt - done
+            todo -= done
+        reached = {g.init} | {g.edges[i]["dst"] for i in done}
+        not_taken = [i for i in todo if g.edges[i]["src"] in reached and (i in banned or any(a in done for a in g.alternatives(g.edges[i])))]
+        unreachable = [i for i in todo if g.edges[i]["src"] not in reached]
+        unexplained = [i for i in todo if i not in set(not_taken) and i not in set(unreachable)]
+        graph_stats[uni.name] = {"nodes": len(g.nodes), "edges": total, "edges_executed": len(done),
+                                 "nondeterministic_outcomes_not_chosen_by_the_implementation": len(not_taken),
+                                 "edges_from_states_only_reachable_through_such_outcomes": len(unreachable),
                                  "deviation_edges": sum(1 for e in g.edges if e["dev"])}
-        if unexplained and not ctx.violations:
+        if unexplained and not any(v.signature not in SIG.values() for v in ctx.violations):
             raise core.MachineryError("%s: %d edges could not be executed (e.g. %s)" % (uni.name, len(unexplained), g.edges[unexplained[0]]))
     ctx.cov["graphs"] = graph_stats
     lap("edge replay done")
@@ -426,9 +489,10 @@ def run(ctx):
                 workers=1, coverage=False, allow_violation=False, env={"WANT_OUT": wantf})
     ctx.add_tlc("LinkedView sim universe: target table", r)
     _G["sim"] = (None, sim, _load_want(sim, wantf))
+    lap("sim target table done")
     simdir = os.path.join(ctx.work, "simtraces")
     os.makedirs(simdir, exist_ok=True)
-    num, depth = (40, 50) if ctx.quick else (400, 80)
+    num, depth = (30, 40) if ctx.quick else (400, 80)
     r = tlc.run(path, cfg_text=tlc.cfg(consts), workdir=ctx.work, workers=1, coverage=False, simulate="file=%s/t,num=%d" % (simdir, num), depth=depth,
                 seed=ctx.seed % 10**6, env={"WANT_OUT": wantf + ".unused"})
     ctx.add_tlc("LinkedView sim universe: -simulate num=%d depth=%d" % (num, depth), r)
@@ -449,6 +513,7 @@ def run(ctx):
             ctx.violation(sig, what, rp)
         for d in o["drift"]:
             ctx.spec_drift(d)
+    lap("simulated histories done")
     ctx.cov["simulated_histories"] = {"behaviours": len(traces), "max_length": max(len(t) for t in traces) // 2}
     # ---- binding self-test -------------------------------------------------------------------------------
     ctx.cov["binding_selftest"] = _selftest(ctx, unis[0])
